@@ -23,6 +23,7 @@ type PropConfig struct {
 	ID        string   `json:"id"`
 	Packages  []string `json:"packages"`
 	Functions []string `json:"functions"`      // full names or suffixes; "pkg:*" = every function of that package
+	NoAssume  []string `json:"no_assume"` // further obligations that are checked but not assumed afterwards (see Options.NoAssume)
 	SkipHas   []string `json:"skip_name_contains"` // obligations outside the claim for specific functions (listed as such)
 	Exclude   []string `json:"exclude"`        // functions not verified (suffix match)
 	Overflow  bool     `json:"overflow"`       // generate overflow obligations
@@ -194,6 +195,14 @@ func cmdCheck(args []string) {
 		}
 	}
 	opt := Options{Overflow: cfg.Overflow, Guards: cfg.Guards, Groups: cfg.Groups, Timeout: timeout, TmpDir: *tmp}
+	opt.NoAssume = append(append([]string{}, cfg.SkipHas...), cfg.NoAssume...)
+	// obligations that are outside some property's claim or known to fail are never assumed, whichever check runs
+	if b, err := os.ReadFile(filepath.Join(*verif, "props", "no_assume.json")); err == nil {
+		var g []string
+		if json.Unmarshal(b, &g) == nil {
+			opt.NoAssume = append(opt.NoAssume, g...)
+		}
+	}
 	if len(cfg.Kinds) > 0 || len(cfg.NameHas) > 0 {
 		opt.Want = func(ob *Obligation) bool {
 			if len(cfg.Kinds) > 0 {
